@@ -98,6 +98,21 @@ func c18Measure(cs c18Case) (allocs float64, bound float64, skipped bool) {
 		src := mkBuf(s, slen(L))
 		dst := mkBuf(d, L)
 		return dyn.AllocsPerRun(c18Runs, func() { dyn.Conv(src, dst) }), 0, false
+	case "conv-aliased":
+		// source and destination share storage (same element type): the very same buffer (variant 0),
+		// the destination one frame in front of the source (1), one frame behind it (2)
+		if L < 2 {
+			return 0, 0, true
+		}
+		parent := mkBuf(s, L)
+		src, dst := parent, parent
+		switch cs.Variant {
+		case 1:
+			src, dst = parent.Slice(1, L), parent.Slice(0, L-1)
+		case 2:
+			src, dst = parent.Slice(0, L-1), parent.Slice(1, L)
+		}
+		return dyn.AllocsPerRun(c18Runs, func() { dyn.Conv(src, dst) }), 0, false
 	case "append":
 		// appending within capacity: destination is reset to its start before every call
 		parent := dyn.Alloc(d, al(C, 2*L+2, 2*L+2))
@@ -133,6 +148,13 @@ func c18Measure(cs c18Case) (allocs float64, bound float64, skipped bool) {
 		if C*L > 1<<20 {
 			runs = 10 // every cycle clears the whole buffer
 		}
+		if cs.Variant == 1 { // through a copy of the allocator value, passed by value, made before its first use
+			return p.AllocsCycleByValue(runs), 0, false
+		}
+		if cs.Variant == 2 { // ... made after a first Get/Put round
+			p.Put(p.Get())
+			return p.AllocsCycleByValue(runs), 0, false
+		}
 		return p.AllocsCycle(runs), 0, false
 	}
 	panic("unknown op " + cs.Op)
@@ -155,7 +177,7 @@ func c18Run(cs c18Case) (fs []F, skipped bool) {
 	}
 	if a > bound {
 		fn := cs.Op
-		if cs.Op == "conv" {
+		if cs.Op == "conv" || cs.Op == "conv-aliased" {
 			fn = dyn.ConvName(typeByName(cs.S), typeByName(cs.D))
 		}
 		fs = append(fs, core.Failf("allocs/"+fn, "%+v: %.0f heap allocation(s) per call, allowed %.0f", cs, a, bound))
@@ -184,6 +206,14 @@ func init() {
 								}
 
 								cases = append(cases, c18Case{Op: op, S: tn(t), D: tn(t), C: C, L: L, Spare: spare})
+								if op == "pool" {
+									cases = append(cases, c18Case{Op: op, S: tn(t), D: tn(t), C: C, L: L, Variant: 1}, c18Case{Op: op, S: tn(t), D: tn(t), C: C, L: L, Variant: 2})
+								}
+							}
+						}
+						for t := 0; t < dyn.NB; t++ { // conversions between windows of one buffer
+							for v := 0; v <= 2; v++ {
+								cases = append(cases, c18Case{Op: "conv-aliased", S: tn(t), D: tn(t), C: C, L: L, Spare: spare, Variant: v})
 							}
 						}
 						for s := 0; s < dyn.NB; s++ {
@@ -237,7 +267,7 @@ func init() {
 			c.Sample(cases[0])
 			c.Sample(cases[len(cases)/2])
 			c.Sample(cases[len(cases)-1])
-			c.Set("rule", "every configuration of {Sample/SetSample, AppendSample (not full / full), Append within capacity, self-Append within capacity, Channel view + all its methods, Slice, pool Get/AppendSample/Put cycle on the real sync.Pool} x 13 types and {Read, Write, ReadStriped, WriteStriped (slices equal/short+uneven/long/empty+nil), the nine conversions (source equal/shorter/longer)} x 169 type pairs, x C in {1,2,8} x lengths {0,1,64,1100[,4096]}, pools up to 8 x 4096 and 1 x 20000 samples for every case shape, plus pools of 160000 .. 4.2 million samples for all 13 types and of 2^24+5 samples (16-128 MiB) for three x plain buffer / window with spare capacity; monitor: testing.AllocsPerRun (GOMAXPROCS 1, warm-up call, integer mean), a non-zero reading is re-measured 5x and the minimum taken; bound 0, Slice <= 1; non-trivial = length > 0; configurations distinct by construction")
+			c.Set("rule", "every configuration of {Sample/SetSample, AppendSample (not full / full), Append within capacity, self-Append within capacity, Channel view + all its methods, Slice, pool Get/AppendSample/Put cycle on the real sync.Pool (through a pointer, and through copies of the allocator value passed by value, made before and after its first use)} x 13 types and {Read, Write, ReadStriped, WriteStriped (slices equal/short+uneven/long/empty+nil), the nine conversions (source equal/shorter/longer; same-type conversions also between overlapping windows of one buffer and in place)} x 169 type pairs, x C in {1,2,8} x lengths {0,1,64,1100[,4096]}, pools up to 8 x 4096 and 1 x 20000 samples for every case shape, plus pools of 160000 .. 4.2 million samples for all 13 types and of 2^24+5 samples (16-128 MiB) for three x plain buffer / window with spare capacity; monitor: testing.AllocsPerRun (GOMAXPROCS 1, warm-up call, integer mean), a non-zero reading is re-measured 5x and the minimum taken; bound 0, Slice <= 1; non-trivial = length > 0; configurations distinct by construction")
 			c.Assume("allocation sites are static: which are reached depends only on instantiation and branch, both enumerated", "not run under -race (race-mode sync.Pool drops items at random)", "runs in the plain build (no overlay): the unmodified package and the real sync.Pool")
 		},
 		RunCase: func(c *core.Ctx, raw json.RawMessage) []F {
